@@ -204,6 +204,17 @@ def G32_library_semantics(repo, clause, scope=ALL_LIB):
                                           "`%s` in %s converts element symbols with the dtype of ANOTHER string array: numpy string dtypes have a fixed width taken from the longest entry of the "
                                           "array they were made for - if that holds only one-letter symbols, 'Cl' is silently truncated to 'C' and matches carbon" % (ast.unparse(c)[:70], fn.qualname),
                                           slot="borrowed-string-dtype:%s" % fn.qualname, positive="robust"))
+        # (i) results reported by printing a numpy array: numpy abbreviates arrays of more than 1000 elements with '...'
+        for c in [x for x in nodes if isinstance(x, ast.Call) and isinstance(x.func, ast.Name) and x.func.id == "print" and x.args]:
+            for a_ in c.args:
+                arr = [y for y in ast.walk(a_) if isinstance(y, ast.Call) and call_name(y) in ("array", "asarray", "reshape", "vstack", "stack", "column_stack") and
+                       (_np(y) or call_name(y) == "reshape")]
+                if arr and not any(isinstance(y, ast.Call) and call_name(y) in ("tolist", "array2string", "savetxt") for y in ast.walk(a_)) and not (isinstance(a_, ast.Call) and call_name(a_) in ("len", "sum", "shape")) and \
+                        not any(isinstance(y, ast.Call) and call_name(y) == "set_printoptions" for f_ in repo.all_fns() if f_.module is fn.module for y in f_.own_nodes()):
+                    cnt["h"] += 1
+                    obs.append(Ob("G32", clause, fn, c, False,
+                                  "`%s` in %s reports results by printing a numpy array: beyond 1000 elements numpy prints the first and last three rows and '...' - the list of matches that "
+                                  "the API returns complete is reported incomplete" % (ast.unparse(c)[:70], fn.qualname), slot="print-ndarray:%s" % fn.qualname, positive="robust"))
         # (h)
         for t in [x for x in nodes if isinstance(x, (ast.If, ast.IfExp, ast.While))]:
             stack, leaves = [t.test], []
